@@ -249,7 +249,7 @@ def _run_batch(cases):
             if isinstance(tail, Err):
                 out.append(tail)
                 continue
-            out.append(["ok", head + tail])
+            out.append(["ok", head + tail + [True]])   # last: model-side invariant flag (see Run_C04.run)
         return out
     finally:
         shutil.rmtree(tmp, ignore_errors=True)
